@@ -162,6 +162,28 @@ func (e *specEnv) resolveType(s string) types.Type {
 		}
 		return types.NewSlice(t)
 	}
+	if strings.HasPrefix(s, "map[") {
+		depth, j := 0, -1
+		for i := 3; i < len(s); i++ {
+			if s[i] == '[' {
+				depth++
+			} else if s[i] == ']' {
+				depth--
+				if depth == 0 {
+					j = i
+					break
+				}
+			}
+		}
+		if j < 0 {
+			return nil
+		}
+		k, v := e.resolveType(s[4:j]), e.resolveType(s[j+1:])
+		if k == nil || v == nil {
+			return nil
+		}
+		return types.NewMap(k, v)
+	}
 	if i := strings.Index(s, "."); i > 0 {
 		pn, tn := s[:i], s[i+1:]
 		for _, p := range e.vc.P.Prog.AllPackages() {
